@@ -93,7 +93,7 @@ def HInv (W : World) (g : G) (h : Th) : Prop :=
   | .rrfA | .rrfB | .rrfC => h.fldF W g (fun i => decide (i < h.fi)) ∧ h.fi ∉ g.pending
   | .fldOtyQ => h.fldF W g (fun i => decide (i < h.fi + 1))
   | .addn | .clr1 | .clr2 => h.postF W g
-  | .popd => h.popF W g (h.cur :: h.popIt)
+  | .popd => h.popF W g (h.cur :: h.popIt) ∧ h.exc = none      -- names are popped only `if rewritten`
   | .unlock => h.popF W g []
   | _ => True
 
@@ -142,8 +142,7 @@ structure GInv (W : World) (g : G) : Prop where
   nodup  : g.pending.Nodup
   isRef  : ∀ i ∈ g.pending, W.ref i = true
   undef  : ∀ i, W.ref i = true → W.defd i = false → i ∈ g.pending ∧ g.ev i = false ∧ g.fty i = .ref
-  done   : ∀ i, W.ref i = true → W.defd i = true → i ∉ g.pending →
-             g.fty i = .res .parsed ∨ (W.isFn = false ∧ undefinedRef W = true)
+  done   : ∀ i, W.ref i = true → W.defd i = true → i ∉ g.pending → g.fty i = .res .parsed
   plain  : ∀ i, W.ref i = false → g.fty i = .res .parsed
   noJunk : ∀ i, g.fty i ≠ .res .junk
   free   : g.lock = none → ∀ i ∈ g.pending, g.fty i = .ref
@@ -183,7 +182,8 @@ def Good (W : World) (g : G) (t t' : Th) : Prop :=
   HInv W g t' ∧ t'.pc.inCS = true ∧ t'.calls = t.calls ∧ t'.outs = t.outs ∧ t'.wrongF = t.wrongF ∧
     t'.vals = t.vals ∧ t'.vouts = t.vouts
 
-theorem popAdvance_G {W : World} {g : G} {t : Th} (P : t.popF W g t.popIt) : Good W g t (popAdvance t) := by
+theorem popAdvance_G {W : World} {g : G} {t : Th} (P : t.popF W g t.popIt) (he : t.popIt ≠ [] → t.exc = none) :
+    Good W g t (popAdvance t) := by
   unfold popAdvance
   split
   · rename_i hp
@@ -191,13 +191,18 @@ theorem popAdvance_G {W : World} {g : G} {t : Th} (P : t.popF W g t.popIt) : Goo
     exact ⟨P, rfl, rfl, rfl, rfl, rfl, rfl⟩
   · rename_i n ns hp
     rw [hp] at P
-    exact ⟨P, rfl, rfl, rfl, rfl, rfl, rfl⟩
+    exact ⟨⟨P, he (by simp [hp])⟩, rfl, rfl, rfl, rfl, rfl, rfl⟩
 
-theorem enterFinally_G {W : World} {g : G} {t : Th} (P : t.popF W g t.rn) :
+/-- `finally: if rewritten: pop …` — nothing is popped when an exception is travelling -/
+theorem enterFinally_G {W : World} {g : G} {t : Th} (P : t.popF W g (if t.exc.isSome then [] else t.rn)) :
     Good W g t (enterFinally W false t) := by
   unfold enterFinally
   simp only [Bool.false_eq_true, if_false]
-  exact popAdvance_G (t := { t with popIt := t.rn }) P
+  refine popAdvance_G (t := { t with popIt := if t.exc.isSome then [] else t.rn }) P ?_
+  intro hne
+  cases he : t.exc with
+  | none => rfl
+  | some e => simp [he] at hne
 
 theorem PostF.toPop {W : World} {g : G} {rn : List Nat} {r : Bool} {c : List Nat} {e : Option Outcome}
     (P : PostF W g rn r c e) : PopF W g rn r c e rn where
@@ -214,7 +219,7 @@ theorem clearAdvance_G {W : World} {g : G} {t : Th} (P : t.postF W g) :
     Good W g t (clearAdvance W false t) := by
   unfold clearAdvance
   split
-  · exact enterFinally_G P.toPop
+  · exact enterFinally_G (by rw [show t.exc = none from P.exc0]; exact P.toPop)
   · exact ⟨P, rfl, rfl, rfl, rfl, rfl, rfl⟩
 
 theorem enterClear_G {W : World} {g : G} {t : Th} (P : t.postF W g) :
@@ -222,7 +227,7 @@ theorem enterClear_G {W : World} {g : G} {t : Th} (P : t.postF W g) :
   unfold enterClear
   split
   · exact clearAdvance_G (t := { t with clrIt := t.clear }) P
-  · exact enterFinally_G P.toPop
+  · exact enterFinally_G (by rw [show t.exc = none from P.exc0]; exact P.toPop)
 
 theorem fieldAdvance_G {W : World} {g : G} {t : Th} (G : GInv W g)
     (F : t.fldF W g (fun i => decide (i < t.fi))) : Good W g t (fieldAdvance W t) := by
@@ -371,8 +376,8 @@ theorem step_eval {W : World} {g : G} {k : Nat} {t : Th} (G : GInv W g) (hl : g.
       simp only [Bool.false_eq_true, if_false]
       have := enterFinally_G (W := W) (g := g) (t := { t with exc := some .nameError }) ?_
       · exact this
-      · show PopF W g t.rn t.resolved t.clear (some .nameError) t.rn
-        refine { toBase := H.toBase, excSome := ?_, sub := fun _ h => h, own := by simp, fty := ?_ }
+      · show PopF W g t.rn t.resolved t.clear (some .nameError) []
+        refine { toBase := H.toBase, excSome := ?_, sub := by simp, own := by simp, fty := ?_ }
         · intro e he
           cases he
           exact ⟨rfl, hf', undefinedRef_of (G.isRef _ hc) hd'⟩
@@ -588,9 +593,8 @@ theorem step_rftRdval {W : World} {g : G} {k : Nat} {t : Th} (G : GInv W g) (hl 
   have hp : t.fi ∈ g.pending := by
     apply Classical.byContradiction
     intro hnp
-    rcases G.done _ href hdef hnp with h | h
-    · rw [hr] at h; cases h
-    · exact F.notStuck G h
+    have h := G.done _ href hdef hnp
+    rw [hr] at h; cases h
   have hrn : t.fi ∈ t.rn := F.mem_rn hp hdef
   have hv : g.val t.fi = .parsed := (F.evVal _ hrn).2
   rw [hv]
@@ -685,6 +689,7 @@ theorem step_popd {W : World} {g : G} {k : Nat} {t : Th} (G : GInv W g) (hl : g.
     StepOK W g (stepTh W false k g t).1 t (stepTh W false k g t).2 := by
   simp only [stepTh, hpc]
   simp only [HInv, hpc] at H
+  obtain ⟨H, hexc⟩ := H
   have hcur : W.defd t.cur = true := H.rnDef _ (H.sub _ (by simp))
   have hmem : ∀ i, i ∈ g.pending.erase t.cur ↔ i ∈ g.pending ∧ i ≠ t.cur := by
     intro i
@@ -702,11 +707,9 @@ theorem step_popd {W : World} {g : G} {k : Nat} {t : Th} (G : GInv W g) (hl : g.
           apply Classical.byContradiction; intro hne; exact hnp ((hmem i).mpr ⟨hp, hne⟩)
         subst hic
         have := H.fty _ hp
-        cases he : t.exc with
-        | none => left; simpa [he] using this
-        | some e => right; exact (H.excSome e he).2
+        simpa [hexc] using this
       · exact G.done i hri hdi hp
-  · apply popAdvance_G
+  · refine popAdvance_G ?_ (fun _ => hexc)
     show PopF W _ t.rn t.resolved t.clear t.exc t.popIt
     refine { toBase := H.toBase, excSome := H.excSome, sub := fun i hi => H.sub i (by simp [hi]), own := ?_, fty := ?_ }
     · intro he i hi
@@ -857,9 +860,7 @@ theorem resolved_fty {W : World} {g : G} (GI : GInv W g) (R : Resolved W g) {i :
     (hr : W.ref i = true) (hd : W.defd i = true) : g.fty i = .res .parsed := by
   have hnp : i ∉ g.pending := by
     intro hp; have := (R i hp).1; simp [hd] at this
-  rcases GI.done i hr hd hnp with h | h
-  · exact h
-  · exact absurd h (resolved_not_stuck GI R)
+  exact GI.done i hr hd hnp
 
 theorem step_unlock {W : World} {prog : Nat → List Call} {g : G} {k : Nat} {t : Th} (GI : GInv W g)
     (T : TInv W prog g k t) (hpc : t.pc = .unlock) :
